@@ -125,6 +125,7 @@ CLAIMS = {
 
 _PENDING = "check not built yet in this revision of /verif (see DESIGN.md section 7 for the order of work)"
 _NA_FIXED = {
+    "C19": "the typed IF_DATA code exists only after a2ml_specification! is expanded in a client crate; E2 encodes the MIR of a2lfile only and the in-tree a2lmacros is not even linked by the lock file - a second crate's MIR was not brought up (DESIGN.md section 4)",
     "C04": "grammar conformance of ~185 generated parsers against the spec DSL is grammar-driven enumeration with concrete runs; the solver has nothing to decide and neither engine reaches a whole load (DESIGN.md section 4 C04)",
     "C20": "relational equivalence of two 36k-line generated programs over all inputs is far outside both engines; the cheap decision (normalise and diff token streams) is not solver-based (DESIGN.md section 4 C20)",
 }
